@@ -157,7 +157,13 @@ type PanicValue struct{ Label string }
 // sentinel http.ErrAbortHandler (a router has no business treating it specially: containment is for any value),
 // 2 an error wrapping that sentinel, 3 a plain string, 4 a fresh error value.
 func PanicKind(o Op) any {
-	switch o.N % 6 {
+	switch o.N % 9 {
+	case 6:
+		return (chan int)(nil) // typed nils are values like any other: the hook finds exactly what was thrown
+	case 7:
+		return (*strings.Builder)(nil)
+	case 8:
+		return (*int)(nil)
 	case 1:
 		return http.ErrAbortHandler
 	case 2:
@@ -173,7 +179,7 @@ func PanicKind(o Op) any {
 }
 
 // PanicKinds is the generator's menu for Op.N of an OpPanic (the harness's own value most of the time).
-var PanicKinds = []int{0, 0, 0, 1, 1, 2, 3, 4, 5}
+var PanicKinds = []int{0, 0, 0, 1, 1, 2, 3, 4, 5, 6, 7, 8}
 
 // Ctx is what a script needs from a context; implemented by the real
 // rux.Context (RCtx) and by the model (MCtx).
@@ -189,7 +195,7 @@ type Ctx interface {
 	SetHeader(k, v string)
 	WriteString(s string)           // Context.WriteString: panics with the write error, like rux
 	Blob(status int, data string)   // Context.Blob: status, content type, then the data if there is any
-	Peek() // every read-only getter of the context (what it returns is edited where it is a map): nothing changes
+	Peek()                          // every read-only getter of the context (what it returns is edited where it is a map): nothing changes
 	Stream(status int, data string) // Context.Stream: status, content type, then the reader's bytes (errors are recorded)
 	Length() int
 	Set(k string, v any)
